@@ -188,6 +188,23 @@ def op_coq(op):
 
 
 # ------------------------------------------------------------------------------------------ builds
+import contextlib
+import fcntl
+
+
+@contextlib.contextmanager
+def file_lock(name):
+    """checks of different properties may be started side by side: builds of the shared Coq development and of the
+    harness (and the regeneration of coq/ApiTable.v) are serialised"""
+    os.makedirs(BUILD, exist_ok=True)
+    with open(os.path.join(BUILD, name), "w") as f:
+        fcntl.flock(f, fcntl.LOCK_EX)
+        try:
+            yield
+        finally:
+            fcntl.flock(f, fcntl.LOCK_UN)
+
+
 def build_harness():
     """build the driver against /repo's current working tree; returns (ok, log, path)"""
     t0 = time.time()
@@ -199,7 +216,8 @@ def build_harness():
     if os.path.exists(lock_src) and not os.path.exists(os.path.join(hdir, "Cargo.lock")):
         subprocess.run(["cp", lock_src, os.path.join(hdir, "Cargo.lock")])
     env = dict(ENV, CARGO_TARGET_DIR=tdir, HL_REPO=REPO)
-    rc, out = sh(["cargo", "build", "--offline", "--quiet"], cwd=hdir, timeout=900, env=env)
+    with file_lock(".build.lock"):
+        rc, out = sh(["cargo", "build", "--offline", "--quiet"], cwd=hdir, timeout=900, env=env)
     return rc == 0, out, os.path.join(tdir, "debug", "hl-driver"), time.time() - t0
 
 
@@ -209,7 +227,8 @@ def build_coq(targets):
         rc, out = sh("coq_makefile -f _CoqProject -o Makefile", cwd=COQ, timeout=60)
         if rc != 0:
             return False, out
-    rc, out = sh(["make", f"-j{NPROC}"] + targets, cwd=COQ, timeout=3000)
+    with file_lock(".build.lock"):
+        rc, out = sh(["make", f"-j{NPROC}"] + targets, cwd=COQ, timeout=3000)
     return rc == 0, out
 
 
